@@ -512,29 +512,40 @@ def contract_addview(case):
         return ("skip",)       # histories that fail without any added feature are seq_views' business
     if str(x) != display(P, pos, rev):
         return ("skip",)
-    sig1 = view_sig(P, pos, rev, st, h1)
-    # spec: the feature is the set of root positions under the given view coordinates; its absolute strand flips
-    # on a reverse-complemented view
-    F = sorted({pos[i] for a, b in spans for i in range(a, b)})
-    abs_strand = strand if not rev else ("-" if strand == "+" else "+")
-    plus = "".join(P[i] for i in F)
-    expected_all = rc_str(plus) if abs_strand == "-" else plus
-    kind = f"{len(spans)}span{strand}"
+    # class of the receiving view for failure keys: orientation and whether it is a proper sub-view of the root
+    sig1 = ("rev" if rev else "fwd") + ("-sub" if len(pos) < len(P) else "-whole")
+    # spec: the statement does not fix how coordinates given to a reverse-complemented view are read, so both
+    # conventions are accepted: (A) displayed coordinates, strand relative to the view; (B) plus-strand coordinates
+    # of the displayed segment, absolute strand.  On a forward view they coincide.  Whichever convention explains
+    # the feature that add_feature returns is then binding for every later look at the feature.
+    seg = sorted(pos)
+    conventions = [("A", sorted({pos[i] for a, b in spans for i in range(a, b)}),
+                    strand if not rev else ("-" if strand == "+" else "+")),
+                   ("B", sorted({seg[i] for a, b in spans for i in range(a, b)}), strand)]
+    kind = f"{len(spans)}span"
     try:
         f0 = x.add_feature(biotype="gene", name="new", spans=[list(sp) for sp in spans], strand=strand)
     except Exception as e:
-        return ("fail", f"{tag}/add_feature/raises:{type(e).__name__}/{kind}/view={sig1}",
+        return ("fail", f"{tag}/add_feature/raises:{type(e).__name__}/{kind}/recv={sig1}",
                 f"{case}: add_feature(spans={spans}, strand={strand!r}) on view {display(P, pos, rev)!r} raised "
                 f"{type(e).__name__}: {e}")
     try:
         got = str(f0.get_slice())
     except Exception as e:
-        return ("fail", f"{tag}/returned-feature/get_slice/raises:{type(e).__name__}/{kind}/view={sig1}",
+        return ("fail", f"{tag}/returned-feature/get_slice/raises:{type(e).__name__}/{kind}/recv={sig1}",
                 f"{case}: get_slice() of the feature returned by add_feature raised {type(e).__name__}: {e}")
-    if got != expected_all:
-        return ("fail", f"{tag}/returned-feature/get_slice/residues/{kind}/view={sig1}",
+    F = abs_strand = None
+    wanted = []
+    for cname, Fc, sc in conventions:
+        plus = "".join(P[i] for i in Fc)
+        exp = rc_str(plus) if sc == "-" else plus
+        wanted.append(exp)
+        if got == exp and F is None:
+            F, abs_strand = Fc, sc
+    if F is None:
+        return ("fail", f"{tag}/returned-feature/get_slice/residues/{kind}/recv={sig1}",
                 f"{case}: feature added at {spans}{strand} of view {display(P, pos, rev)!r} slices to {got!r}, "
-                f"expected {expected_all!r}")
+                f"expected {wanted[0]!r} (displayed coordinates) or {wanted[1]!r} (plus-strand coordinates)")
     # now look at it again: from the same view, from a further view, from the root
     targets = [("same-view", x, pos, rev, st, h1)]
     y, pos2, rev2, st2, bad = run_history(x, h2, P, tag, case, real_seq_apply)
@@ -544,7 +555,7 @@ def contract_addview(case):
         pos2, rev2, st2 = view_apply(P, pos2, rev2, st2, o)
     if h2 and not bad and str(y) == display(P, pos2, rev2):
         targets.append(("later-view", y, pos2, rev2, st2, h1 + h2))
-    if h1:
+    if h1 and not any(o[0] in ("cp", "dc") for o in h1):     # a copy has its own db: the root need not see the feature
         targets.append(("root", root, *view_root(P), []))
     for where, v, vpos, vrev, vst, vh in targets:
         retained = set(vpos)
@@ -557,22 +568,22 @@ def contract_addview(case):
         try:
             fs = [f for f in v.get_features(allow_partial=True)]
         except Exception as e:
-            return ("fail", f"{tag}/requery/{where}/raises:{type(e).__name__}/{kind}:{state}/view={sig1}",
+            return ("fail", f"{tag}/requery/{where}/raises:{type(e).__name__}/{kind}/recv={sig1}",
                     f"{ctx} raised {type(e).__name__}: {e}")
         if len(fs) > 1:
-            return ("fail", f"{tag}/requery/{where}/duplicates/{kind}/view={sig1}", f"{ctx} returned {len(fs)} features")
+            return ("fail", f"{tag}/requery/{where}/duplicates/{kind}/recv={sig1}", f"{ctx} returned {len(fs)} features")
         if not fs:
             if keep:
-                return ("fail", f"{tag}/requery/{where}/missing/{kind}:{state}/view={sig1}",
+                return ("fail", f"{tag}/requery/{where}/missing/{kind}/recv={sig1}",
                         f"{ctx} returned nothing; the feature's residues {exp!r} are displayed")
             continue
         try:
             got = str(fs[0].get_slice())
         except Exception as e:
-            return ("fail", f"{tag}/requery/{where}/get_slice/raises:{type(e).__name__}/{kind}:{state}/view={sig1}",
+            return ("fail", f"{tag}/requery/{where}/get_slice/raises:{type(e).__name__}/{kind}/recv={sig1}",
                     f"{ctx}: get_slice() raised {type(e).__name__}: {e}")
         if got != exp:
-            return ("fail", f"{tag}/requery/{where}/residues/{kind}:{state}/view={sig1}",
+            return ("fail", f"{tag}/requery/{where}/residues/{kind}/recv={sig1}",
                     f"{ctx}: the feature now slices to {got!r} (map {fs[0].map}), expected {exp!r}")
     return ("ok", True)
 
